@@ -367,6 +367,16 @@ def spec_tables(ck):
         out = []
         for s_ in stmts:
             for n in walk(s_):
+                if n.get("k") == "call" and n.get("ck") == "member" and name_is(n.get("callee"), ("QString::leftJustified", "QString::rightJustified")) and len(n.get("args", [])) >= 2:
+                    # val.leftJustified(w, fill) == val + fill x (w - |val|); rightJustified pads in front (no truncation by default)
+                    fill = skip_copies(n["args"][1])
+                    isfill = fill.get("k") == "member" and (fill.get("name") or "").endswith("FormatSpec::fill")
+                    wid = skip_copies(deref_local(ap, n["args"][0]))
+                    isw = wid.get("k") == "member" and (wid.get("name") or "").endswith("FormatSpec::width")
+                    trunc = len(n["args"]) > 2 and n["args"][2].get("k") != "defaultarg" and const_int(n["args"][2]) not in (0, None)
+                    pieces = [("val", n.get("obj"), True), ("pad", wid, isfill and isw and not trunc)]
+                    out += pieces if name_is(n.get("callee"), "QString::leftJustified") else list(reversed(pieces))
+                    continue
                 if n.get("k") == "call" and n.get("ck") == "member" and name_is(n.get("callee"), ("append", "operator+=")):
                     a = skip_copies(n["args"][0])
                     if a.get("k") == "construct" and a.get("class") == "QString" and len(a.get("args", [])) == 2:
@@ -401,7 +411,7 @@ def spec_tables(ck):
                 if not ok:
                     ck.ob("C12-O4", sitestr(ap), False, "centre padding is left=%s right=%s (documented: floor(p/2) left, the rest right)" % (describe(lp), describe(rp)), key="applyPadding|center-split")
                     continue
-        ck.ob("C12-O4", sitestr(ap), ok, "%s alignment: %s with the fill character" % (nm, " + ".join(kinds)) if ok else "%s alignment appends %s" % (nm, kinds), key="applyPadding|arm-%s" % nm)
+        ck.ob("C12-O4", sitestr(ap), ok if (ok or kinds) else None, "%s alignment: %s with the fill character" % (nm, " + ".join(kinds)) if ok else "%s alignment appends %s" % (nm, kinds), key="applyPadding|arm-%s" % nm)
     if pad_decl is not None:
         pl = linear(pad_decl.get("init"), lambda n: "w" if (n.get("k") == "member" and (n.get("name") or "").endswith("FormatSpec::width")) else ("len" if is_call(n, ("QString::length", "QString::size")) else None))
         ok = pl == {"w": 1, "len": -1} or pl == {"w": 1, "len": -1, "": 0}
@@ -437,28 +447,19 @@ def spec_precedence(ck):
     g = Graph(fn)
     svars = {v["decl"] for n in fn.find(lambda n: n.get("k") == "decl") for v in n.get("vars", []) if (v.get("type") or "").replace("const ", "") == "QString"} | {fn.params[0]["decl"]}
     is_s = lambda o: isinstance(o, dict) and o.get("k") == "ref" and o.get("decl") in svars
-    # classification sites: an alignment test applied to s.at(k) inside a branch condition
+    # classification sites: an alignment test (contains("<^>") / charToAlignment) applied to s.at(k), wherever it is evaluated
     cls = {0: [], 1: []}
-    for b in g.blocks.values():
-        if b.get("cond") is None:
+    for x in fn.calls():
+        arg = None
+        if name_is(x.get("callee"), "contains") and x.get("args") and const_str(x.get("obj")) is not None and set(const_str(x.get("obj"))) == set("<^>"):
+            arg = x["args"][0]
+        elif name_is(x.get("callee"), "charToAlignment") and x.get("args"):
+            arg = x["args"][0]
+        if arg is None:
             continue
-        c = fn.nodes.get(b["cond"])
-        for x in walk(c) if c else ():
-            if x.get("k") != "call":
-                continue
-            arg = None
-            if name_is(x.get("callee"), "contains") and x.get("args") and const_str(x.get("obj")) is not None and set(const_str(x.get("obj"))) == set("<^>"):
-                arg = x["args"][0]
-            elif name_is(x.get("callee"), "charToAlignment") and x.get("args"):
-                arg = x["args"][0]
-            if arg is None:
-                continue
-            k = _at_index(fn, arg, is_s)
-            if k in (0, 1):
-                cls[k].append(x)
-    if not cls[0] or not cls[1]:
-        ck.ob("C12-O4", sitestr(fn), None, "format spec: alignment tests of position 0 (%d) / position 1 (%d) not found as branch conditions" % (len(cls[0]), len(cls[1])))
-        return
+        k = _at_index(fn, arg, is_s)
+        if k in (0, 1) and g.site_of(x) is not None:
+            cls[k].append(x)
     lencall = lambda n: is_call(n, ("QString::length", "QString::size", "QString::count")) and is_s(skip_copies(skip_copies(n).get("obj")))
     empt = lambda n: is_call(n, "QString::isEmpty") and is_s(skip_copies(skip_copies(n).get("obj")))
 
@@ -480,10 +481,14 @@ def spec_precedence(ck):
 
     def atom(n):
         if n.get("id") in ids1:
-            return True
-        if n.get("k") == "binop" and n.get("op") in ("==", "!=") and any(skip_copies(x).get("k") == "member" and skip_copies(x).get("name", "").endswith("::align") for x in (n.get("lhs"), n.get("rhs"))) \
-                and any((skip_copies(x).get("name") or "").endswith("Alignment::None") for x in (n.get("lhs"), n.get("rhs"))):
-            return n["op"] == "!="   # align was just set from an alignment character: it is not None
+            return True   # contains()-form of the position-1 test
+        if n.get("k") == "binop" and n.get("op") in ("==", "!=") and any((skip_copies(x).get("name") or "").endswith("Alignment::None") for x in (n.get("lhs"), n.get("rhs"))):
+            other = n.get("lhs") if (skip_copies(n.get("rhs")).get("name") or "").endswith("Alignment::None") else n.get("rhs")
+            o = skip_copies(resolve_value(other, base, fn))
+            if isinstance(o, dict) and o.get("id") in ids1:
+                return n["op"] == "!="   # charToAlignment(s.at(1)) is an alignment: it is not None
+            if isinstance(o, dict) and o.get("k") == "member" and o.get("name", "").endswith("::align"):
+                return n["op"] == "!="   # align was just set from an alignment character
         return base(n)
     live = g.live(g.projector(atom))
     second = [c0 for c0 in cls[0] if g.site_of(c0) in live]
